@@ -175,6 +175,9 @@ fn scan(db: &DB) -> Result<Vec<(Vec<u8>, Vec<u8>)>, String> {
         out.push((k.clone(), v.clone()));
         it.next();
     }
+    if let Some(e) = it.take_error() {
+        return Err(format!("iteration stopped with an error: {e:?}"));
+    }
     Ok(out)
 }
 
